@@ -718,7 +718,6 @@ func runEffects(c *Ctx, rule string, roots map[*ssa.Function]bool, pkgs map[stri
 	return len(fns), nWrites
 }
 
-
 // R6 call.ctx: a user-defined function evaluates its result in a context of its own.
 func c17UserfuncContext(c *Ctx) {
 	c.Rule("R6 call.ctx: in ext/userfunc every evaluation of an expression inside the implementation closure of a decoded function (a function.Spec Impl) is given a context obtained from NewChild() on every path, never the shared base context itself: per-evaluation state of the syntax tree (the splat's current item) is keyed by the context, so two concurrent calls that evaluated in the base context would overwrite each other's state")
